@@ -459,9 +459,9 @@ pub fn run(run: &'static Run) {
          Layouts per DAG: one non-split commit-graph file, and every composition of n into 1..4 stages of commits (index order) with one \
          `git commit-graph write --split=no-merge` per stage => chains of 1..4 files; the graph is opened and compared after EVERY stage, the final one \
          also through Graph::at(info dir | commit-graphs dir | file). \
-         Sub dags-alone (graph files hold just that DAG, written with --reachable, once plain and once with --changed-paths = extra BIDX/BDAT chunks in every file): quick n<=3 ordered x 3 patterns; thorough n<=4 ordered x 3 patterns + wide(5). \
+         Sub dags-alone (graph files hold just that DAG, written with --reachable; DAGs with n<=2 (thorough: n<=3) also a second time with --changed-paths = extra BIDX/BDAT chunks in every file): quick n<=3 ordered x big; thorough n<=3 ordered x 3 patterns, n=4 ordered x big, wide(5) over forests (first 4 commits have <=1 parent). \
          Sub dags-pooled (graph files hold ALL DAGs of that size at once, cut into stages the same way, written with --stdin-commits; thousands of commits \
-         per file, hundreds of extra-edge lists): quick n<=4 ordered x 3 patterns, n=5 ascending x 3 patterns + wide(5); thorough n<=5 ordered x 3 patterns + \
+         per file, hundreds of extra-edge lists): quick n<=4 ordered x 3 patterns, n=5 ascending x big + wide(5); thorough n<=5 ordered x 3 patterns + \
          wide(5), n=6 ascending x big + wide(6). Sub pooled-graphs: whole-file observations for every pooled layout. \
          non-trivial = the DAG has at least one parent edge",
     );
@@ -489,18 +489,23 @@ pub fn run(run: &'static Run) {
     for n in 1..=4 {
         family(n, true, PATS, pools.entry(n).or_default());
     }
-    family(5, !quick, PATS, pools.entry(5).or_default());
+    family(5, !quick, if quick { &[PAT_BIG] } else { PATS }, pools.entry(5).or_default());
     wide(5, pools.entry(5).or_default());
     if !quick {
         family(6, false, &[PAT_BIG], pools.entry(6).or_default());
         wide(6, pools.entry(6).or_default());
     }
+    // alone: one git process per stage and DAG, so this family is kept small
     let mut alone: Vec<Dag> = Vec::new();
-    for n in 1..=run.pick(3, 4) {
-        family(n, true, PATS, &mut alone);
+    for n in 1..=3 {
+        family(n, true, if quick { &[PAT_BIG] } else { PATS }, &mut alone);
     }
     if !quick {
-        wide(5, &mut alone);
+        family(4, true, &[PAT_BIG], &mut alone);
+        // wide octopus over a forest: 4 commits with at most one parent each + one commit merging all four
+        let mut w = Vec::new();
+        wide(5, &mut w);
+        alone.extend(w.into_iter().filter(|d| d.parents[..4].iter().all(|p| p.len() <= 1)));
     }
     // replay: only what the case needs
     let replay_dag = run.replay_case::<DagCase>("dags-alone").or_else(|| run.replay_case::<DagCase>("dags-pooled"));
@@ -523,7 +528,9 @@ pub fn run(run: &'static Run) {
     }
     let mut all: Vec<Dag> = pools.values().flatten().cloned().collect();
     all.extend(alone.iter().cloned());
+    let t0 = std::time::Instant::now();
     let sh = build(&all);
+    run.cov("secs_fixture_fast_import", t0.elapsed().as_secs_f64());
     run.cov("dags_pooled", pools.values().map(Vec::len).sum::<usize>());
     run.cov("dags_alone", alone.len());
     run.cov("distinct_commits", sh.truth.len());
@@ -540,6 +547,7 @@ pub fn run(run: &'static Run) {
             }
         }
     }
+    let t0 = std::time::Instant::now();
     let built: Vec<Result<Layout, String>> = {
         let next = AtomicU64::new(0);
         let slots: Vec<std::sync::Mutex<Option<Result<Layout, String>>>> = wanted.iter().map(|_| std::sync::Mutex::new(None)).collect();
@@ -578,6 +586,7 @@ pub fn run(run: &'static Run) {
         slots.into_iter().map(|s| s.into_inner().unwrap().unwrap_or_else(|| vkit::machinery!("layout not built"))).collect()
     };
     let layouts: HashMap<(usize, Vec<u8>), Result<Layout, String>> = wanted.iter().cloned().zip(built).collect();
+    run.cov("secs_pooled_layout_writes", t0.elapsed().as_secs_f64());
     run.cov("pooled_layouts", layouts.len());
     run.cov("largest_pooled_file_commits", layouts.values().filter_map(|l| l.as_ref().ok()).flat_map(|l| l.layers.iter().map(Vec::len)).max().unwrap_or(0));
     let (layouts, pools, alone) = (&layouts, &pools, &alone);
@@ -666,9 +675,10 @@ pub fn run(run: &'static Run) {
         }
     };
 
+    let bloom_max_n = run.pick(2, 3);
     let emit_layouts = |d: &Dag, is_alone: bool, emit: &mut dyn FnMut(DagCase)| {
         for bloom in [false, true] {
-            if bloom && !is_alone {
+            if bloom && !(is_alone && d.n() <= bloom_max_n) {
                 continue;
             }
             emit(DagCase { dag: d.clone(), stages: vec![], alone: is_alone, bloom });
@@ -677,6 +687,7 @@ pub fn run(run: &'static Run) {
             }
         }
     };
+    let t0 = std::time::Instant::now();
     run.sub_with(
         "dags-pooled",
         vkit::Opts::default().chunk(4096),
@@ -689,6 +700,8 @@ pub fn run(run: &'static Run) {
         },
         &eval,
     );
+    run.cov("secs_dags-pooled", t0.elapsed().as_secs_f64());
+    let t0 = std::time::Instant::now();
     run.sub_with(
         "pooled-graphs",
         vkit::Opts::default().chunk(1),
@@ -712,6 +725,8 @@ pub fn run(run: &'static Run) {
             ok(if c.stages.is_empty() { "whole-single".to_string() } else { format!("whole-chain-{}", c.stages.len()) })
         },
     );
+    run.cov("secs_pooled-graphs", t0.elapsed().as_secs_f64());
+    let t0 = std::time::Instant::now();
     run.sub_with(
         "dags-alone",
         vkit::Opts::default().chunk(64),
@@ -722,6 +737,7 @@ pub fn run(run: &'static Run) {
         },
         &eval,
     );
+    run.cov("secs_dags-alone", t0.elapsed().as_secs_f64());
     run.cov("git_commit_graph_writes", GIT_WRITES.load(Ordering::Relaxed));
     run.cov("graph_x_dag_comparisons", GRAPHS_COMPARED.load(Ordering::Relaxed));
     run.cov("commit_entries_compared", COMMITS_COMPARED.load(Ordering::Relaxed));
